@@ -56,15 +56,19 @@ pub fn check(c: &Case) -> CheckResult {
 
 /// The same property at the command line (`kestrel password encrypt|decrypt --env-pass`), data through files or pipes.
 #[derive(Clone, Debug, Serialize, Deserialize)]
-pub struct CliCase { pub plain: Plain, pub pw: String, pub enc_pipe: Option<Vec<u16>>, pub dec_stdout: bool, pub wrong_sel: u64 }
+pub struct CliCase { pub plain: Plain, pub pw: String, pub enc_pipe: Option<Vec<u16>>, pub dec_stdout: bool, pub wrong_sel: u64,
+    /// how the ciphertext reaches `password decrypt`: 0 = regular FILE, 1 = FILE is a named pipe fed in pieces, 2 = FILE is /dev/stdin bound to a pipe, 3 = no FILE, stdin
+    #[serde(default)] pub dec_input: u8 }
 pub fn check_cli(c: &CliCase) -> CheckResult {
     use crate::cli::{In, Sandbox};
     let sb = Sandbox::new(); let p = c.plain.bytes(); sb.write("p.bin", &p);
     let mut a = vec!["password", "encrypt"]; if c.enc_pipe.is_none() { a.push("p.bin"); } a.extend(["-o", "c.ktl", "--env-pass"]);
     let mut cmd = sb.cmd(&a).env("KESTREL_PASSWORD", &c.pw); if let Some(sz) = &c.enc_pipe { cmd = cmd.stdin(In::Pipe(p.clone(), super::c01::pieces(sz, p.len()))); }
     let r = cmd.run(); ensure!(r.code == Some(0), "password encrypt failed: {}", r.describe());
-    let mut a = vec!["password", "decrypt", "c.ktl", "--env-pass"]; if !c.dec_stdout { a.extend(["-o", "out.bin"]); }
-    let r = sb.cmd(&a).env("KESTREL_PASSWORD", &c.pw).run(); ensure!(r.code == Some(0), "password decrypt under the encryption password failed: {}", r.describe());
+    let ct = sb.read("c.ktl").ok_or("no ciphertext file")?;
+    let mut a = vec!["password", "decrypt"]; match c.dec_input % 4 { 0 => a.push("c.ktl"), 1 => a.push("c.fifo"), 2 => a.push("/dev/stdin"), _ => {} } a.push("--env-pass"); if !c.dec_stdout { a.extend(["-o", "out.bin"]); }
+    let wire = |mut cmd: crate::cli::Cmd| -> crate::cli::Cmd { match c.dec_input % 4 { 1 => cmd.fifos.push(("c.fifo".into(), ct.clone(), vec![3, 33, ct.len() / 2 + 1])), 2 => cmd.stdin = In::Pipe(ct.clone(), vec![5, ct.len() / 2 + 1]), 3 => cmd.stdin = In::File(sb.path("c.ktl")), _ => {} } cmd };
+    let r = wire(sb.cmd(&a).env("KESTREL_PASSWORD", &c.pw)).run(); ensure!(r.code == Some(0), "password decrypt under the encryption password failed (ciphertext given as {}): {}", ["a regular FILE", "a named pipe as FILE", "/dev/stdin as FILE (a pipe)", "stdin"][(c.dec_input % 4) as usize], r.describe());
     let out = if c.dec_stdout { r.stdout.clone() } else { sb.read("out.bin").ok_or("no plaintext file")? };
     ensure!(out == p, "command-line password round trip changed the plaintext ({} in, {} out)", p.len(), out.len());
     // a different password: exit 1, nothing delivered
@@ -73,7 +77,7 @@ pub fn check_cli(c: &CliCase) -> CheckResult {
     let mut label = "none";
     if !cand.is_empty() { let (w2, l) = cand[(c.wrong_sel >> 20) as usize % cand.len()]; label = l;
         let _ = std::fs::remove_file(sb.path("out.bin"));
-        let r = sb.cmd(&a).env("KESTREL_PASSWORD", std::str::from_utf8(w2).unwrap()).run();
+        let r = wire(sb.cmd(&a).env("KESTREL_PASSWORD", std::str::from_utf8(w2).unwrap())).run();
         ensure!(r.code == Some(1), "password decrypt under a different password (variant {}) exited {:?}", l, r.code);
         ensure!(r.stdout.is_empty() && sb.read("out.bin").map(|f| f.is_empty()).unwrap_or(true), "plaintext was delivered under a wrong password (variant {})", l); }
     ok(c.enc_pipe.is_some() || !c.pw.is_ascii() || c.pw.is_empty() || c.pw.len() > 64, format!("cli/{}/wrong:{}", if c.enc_pipe.is_some() { "pipe" } else { "file" }, label))
@@ -102,7 +106,8 @@ pub fn run(ctx: &Ctx) {
     ctx.assume("the shared chunk loop is covered exhaustively for AAD = 65 67 6B 20 by C01 layer B");
     ctx.pbt("pass_roundtrip_wrong", ctx.n(480, 6_000), || strat(if ctx.quick() { 2 } else { 5 }), check);
     ctx.shrink_iters.store(20, std::sync::atomic::Ordering::Relaxed);
-    ctx.pbt("cli_password_mode", ctx.n(48, 1_000), || (prop_oneof![1 => Just(Plain { len: 0, seed: 0 }), 4 => gen::small_plain(3000), 1 => gen::plain_strategy(200_000), 1 => (1usize..40).prop_map(|k| Plain { len: k * 4096, seed: 0 })], gen::env_password_strategy(), proptest::option::of(proptest::collection::vec(any::<u16>(), 0..6)), any::<bool>(), any::<u64>()).prop_map(|(plain, pw, enc_pipe, dec_stdout, wrong_sel)| CliCase { plain, pw, enc_pipe, dec_stdout, wrong_sel }), check_cli);
+    ctx.pbt("cli_password_mode", ctx.n(48, 1_000), || (prop_oneof![1 => Just(Plain { len: 0, seed: 0 }), 4 => gen::small_plain(3000), 1 => gen::plain_strategy(200_000), 1 => (1usize..40).prop_map(|k| Plain { len: k * 4096, seed: 0 })], gen::env_password_strategy(), proptest::option::of(proptest::collection::vec(any::<u16>(), 0..6)), any::<bool>(), any::<u64>()).prop_map(|(plain, pw, enc_pipe, dec_stdout, wrong_sel)| CliCase { plain, pw, enc_pipe, dec_stdout, wrong_sel, dec_input: if wrong_sel % 2 == 0 { 0 } else { ((wrong_sel >> 3) % 4) as u8 } }), check_cli);
+    ctx.sse_vec("cli_ciphertext_sources", "password decrypt with the ciphertext given as a regular FILE, a named pipe, /dev/stdin bound to a pipe, and plain stdin x {30 B, 70 kB}", (0..4u8).flat_map(|dec_input| [30usize, 70_000].map(move |len| CliCase { plain: Plain { len, seed: 5 + len as u64 }, pw: "pw".into(), enc_pipe: None, dec_stdout: dec_input % 2 == 0, wrong_sel: 7, dec_input })).collect(), check_cli);
     let nb: Vec<EnvBytes> = vec![(b"caf\xe9-2024".to_vec(), b"caf\xe8-2024".to_vec()), (vec![0xff], vec![0x80]), (vec![0xff], "\u{fffd}".as_bytes().to_vec()), (b"pw\xff".to_vec(), b"pw\xfe".to_vec()), (vec![0xc3], vec![0xc3, 0x28]), (vec![0xed, 0xa0, 0x80], vec![0xed, 0xa0, 0x81])].into_iter().map(|(a, b)| EnvBytes { a, b }).collect();
     ctx.sse_vec("cli_env_password_bytes", "pairs of different non-UTF-8 byte strings in KESTREL_PASSWORD: refused, or told apart", nb, check_env_bytes);
     ctx.pbt("cli_env_password_bytes_random", ctx.n(24, 400), || (proptest::collection::vec(1u8..=255, 1..12), proptest::collection::vec(1u8..=255, 1..12), any::<u8>()).prop_map(|(a, mut b, k)| { if k % 2 == 0 { b = a.clone(); let i = k as usize % b.len(); b[i] = if b[i] >= 0x80 { if b[i] == 0xff { 0xfe } else { b[i] + 1 } } else { b[i] | 0x80 }; } EnvBytes { a, b } }), check_env_bytes);
